@@ -106,7 +106,7 @@ fn c01_missing_changes_kernel() {
     kani::assume(inv(first, last, highest) && below_top(first, last, highest));
     wp.lost_changes_update(first);
     wp.missing_changes_update(last);
-    wp.irrelevant_change_set(highest);
+    wp.received_change_set(highest);
     let hb_count: i32 = kani::any();
     wp.set_last_received_heartbeat_count(hb_count);
     let fm = core::cmp::max(first, highest + 1);
@@ -134,26 +134,26 @@ fn c01_missing_changes_kernel() {
     core::mem::forget(wp);
 }
 
-/// Reader GAP step on a stand-alone writer proxy: GAP(gapStart = g, gapList.base = b, empty bitmap -
-/// the only form dust-dds writers emit) processed by the statements of handle_gap_submessage.
-/// Oracle from the statement: a sequence number may become available (<= available_changes_max) only
-/// if every number between the old maximum and it is irrelevant, i.e. covered by the GAP.
-fn gap_step(contiguous: bool) -> (i64, i64, i64) {
+// @check props=C01 tier=quick
+// @desc Reader GAP step on a writer proxy: GAP(gapStart = g, gapList.base = b, empty bitmap - the only form dust-dds writers emit) processed by the statements of handle_gap_submessage. A sequence number may become available only if every number between the old available_changes_max and it is covered by the GAP: a GAP adjacent to or overlapping the received prefix (g <= max+1) extends available_changes_max to max(old, b-1); a GAP that starts beyond the next expected change (an earlier DATA was lost or overtaken - scenario of the defect repaired by fix 1d4869a) leaves available_changes_max unchanged, and the changes before the gap are still the first ones reported by missing_changes() (so the next ACKNACK names them, c01_reader_heartbeat_acknack).
+// @bounds proxy state symbolic with sequence numbers <= 1000, GAP range of 0..=3 sequence numbers anywhere in 1..=1006, empty bitmap; unwind 6
+// @assume glue statements of handle_gap_submessage replicated by support_rtps::glue_gap_proxy (source guard)
+// @enc rtps::writer_proxy::RtpsWriterProxy::irrelevant_change_set
+// @enc rtps::writer_proxy::RtpsWriterProxy::available_changes_max
+// @enc rtps::writer_proxy::RtpsWriterProxy::missing_changes
+#[kani::proof]
+#[kani::unwind(6)]
+fn c01_reader_gap_step() {
     let mut wp = s::new_proxy(ReliabilityKind::Reliable);
     let first: i64 = kani::any();
     let highest: i64 = kani::any();
     kani::assume(first >= 1 && highest >= 0 && first <= 1000 && highest <= 1000);
     wp.lost_changes_update(first);
-    wp.irrelevant_change_set(highest);
+    wp.received_change_set(highest);
     let old_max = wp.available_changes_max();
     let g: i64 = kani::any();
     let b: i64 = kani::any();
     kani::assume(g >= 1 && g <= 1003 && b >= g && b - g <= 3);
-    if contiguous {
-        kani::assume(g <= old_max + 1);
-    } else {
-        kani::assume(g > old_max + 1 && b > g);
-    }
     let gap = GapSubmessage::new(s::R_ID, s::W_ID, g, SequenceNumberSet::new(b, []));
     s::glue_gap_proxy(&mut wp, &gap);
     let new_max = wp.available_changes_max();
@@ -162,38 +162,15 @@ fn gap_step(contiguous: bool) -> (i64, i64, i64) {
         assert!(new_max == core::cmp::max(old_max, b - 1), "C01: a GAP adjacent to the available prefix extends it to the end of the gap");
     } else {
         assert!(new_max == old_max, "C01: a GAP that starts beyond the next expected change must not skip the changes before it (they are still missing)");
+        wp.missing_changes_update(b);
+        assert!(wp.missing_changes().next() == Some(old_max + 1), "C01: the changes before a non-adjacent GAP are still reported missing");
     }
-    core::mem::forget(wp);
-    core::mem::forget(gap);
-    (old_max, g, b)
-}
-
-// @check props=C01 tier=quick
-// @desc Reader GAP step, GAP adjacent to or overlapping the received prefix (gapStart <= available_changes_max+1): after the statements of handle_gap_submessage, available_changes_max is max(old, gapList.base-1) - the irrelevant range is skipped, nothing received is lost.
-// @bounds proxy state symbolic with sequence numbers <= 1000, GAP range of 0..=3 sequence numbers, empty bitmap; unwind 6
-// @assume glue statements of handle_gap_submessage replicated by support_rtps::glue_gap_proxy (source guard)
-// @assume sibling of KF-C01-2: gapStart <= available_changes_max + 1
-// @enc rtps::writer_proxy::RtpsWriterProxy::irrelevant_change_set
-// @enc rtps::writer_proxy::RtpsWriterProxy::available_changes_max
-#[kani::proof]
-#[kani::unwind(6)]
-fn c01_reader_gap_step__rest() {
-    let (old_max, g, b) = gap_step(true);
     kani::cover!(g == old_max + 1 && b == g + 3, "GAP of three changes right after the received prefix");
     kani::cover!(g < old_max && b - 1 > old_max, "GAP overlapping the received prefix");
     kani::cover!(b == g, "empty GAP range");
-}
-
-// @check props=C01 tier=quick known=KF-C01-2
-// @desc Reader GAP step, GAP beyond the next expected change (expected to FAIL, recorded finding KF-C01-2): gapStart > available_changes_max+1, i.e. at least one change before the gap is still missing (its DATA was lost or is overtaken by the GAP datagram). available_changes_max must not move; the real irrelevant_change_set raises the single watermark highest_received_change_sn to the end of the gap, so every missing change below the gap is silently treated as received: it is acknowledged (ACKNACK base jumps past it), never requested, and a later DATA for it is rejected as old.
-// @bounds proxy state symbolic with sequence numbers <= 1000, GAP range of 1..=3 sequence numbers, empty bitmap; unwind 6
-// @assume trigger of KF-C01-2: gapStart > available_changes_max + 1 and a non-empty gap range
-// @enc rtps::writer_proxy::RtpsWriterProxy::irrelevant_change_set
-#[kani::proof]
-#[kani::unwind(6)]
-fn c01_reader_gap_step__known() {
-    let (old_max, g, _b) = gap_step(false);
-    kani::cover!(g == old_max + 2, "exactly one change missing before the gap");
+    kani::cover!(g == old_max + 2 && b > g, "exactly one change missing before the gap");
+    core::mem::forget(wp);
+    core::mem::forget(gap);
 }
 
 /// ACKNACK wire layout (RTPS 9.4.5.2), offsets from the submessage header:
@@ -245,7 +222,7 @@ fn c01_reader_heartbeat_acknack() {
     kani::assume(inv(first0, last0, highest) && first0 <= 1000 && last0 <= 1000 && highest <= 1000);
     wp.lost_changes_update(first0);
     wp.missing_changes_update(last0);
-    wp.irrelevant_change_set(highest);
+    wp.received_change_set(highest);
     let old_hb_count: i32 = kani::any();
     wp.set_last_received_heartbeat_count(old_hb_count);
     if kani::any() {
@@ -317,7 +294,7 @@ fn acknack_with_fragment(gapped: bool, stale_only: bool) -> (u32, bool) {
     let highest: i64 = kani::any();
     kani::assume(first0 >= 1 && highest >= 0 && first0 <= 1000 && highest <= 1000);
     wp.lost_changes_update(first0);
-    wp.irrelevant_change_set(highest);
+    wp.received_change_set(highest);
     // a reliable reader buffers a fragment only for the sequence number it expects at that time
     let sn_f: i64 = wp.available_changes_max() + 1;
     let fbytes: [u8; 3] = kani::any();
@@ -446,7 +423,7 @@ fn c05_nackfrag_count_two_rounds() {
     let mut wp = s::new_proxy(ReliabilityKind::Reliable);
     let highest: i64 = kani::any();
     kani::assume(highest >= 0 && highest <= 1000);
-    wp.irrelevant_change_set(highest);
+    wp.received_change_set(highest);
     let sn_f = highest + 1;
     let fbytes: [u8; 3] = kani::any();
     let c = s::change(sn_f, Arc::from(&fbytes[..]));
